@@ -13,6 +13,9 @@ CONSTANTS
   Defect_HeartbeatStart = FALSE
   Defect_LatePool = FALSE
   Defect_ReconnectWindow = FALSE
+  Defect_EvStopUnderLock = FALSE
+  Defect_EvSyncCallback = FALSE
+  EvEager = FALSE
   Defect_ReconnectInline = TRUE
   Mut = "none"
 INVARIANTS TypeOK NoPanic AllClosedAfterClose QueryAfterClose CancelAfterPools
